@@ -3,8 +3,8 @@ package verifsim
 import (
 	crand "crypto/rand"
 	"fmt"
-	"os"
 	"math/rand"
+	"os"
 	"runtime"
 	"runtime/debug"
 	"sort"
@@ -40,23 +40,23 @@ type Property interface {
 
 // Run is one executed plan with everything observed.
 type Run struct {
-	Plan      *Plan
-	Sim       *Sim
-	Stack     *Stack
-	Backends  map[string]*Backend
-	Clients   *Clients
-	Results   []*ClientResult
-	Exchanges []*Exchange // all backends, by (step, backend)
-	EndReason string
-	BootLate  bool
-	Err       string // harness trouble (never a violation)
-	Panic     string
-	SimTime   time.Duration
-	Wall      time.Duration
-	Final     FinalStats
-	Extra     map[string]any // property-specific observations made in AtEnd / hooks
-	Viol      []Violation    // violations raised by invariants during the run
-	Goroutines [2]int        // before workload / after teardown
+	Plan               *Plan
+	Sim                *Sim
+	Stack              *Stack
+	Backends           map[string]*Backend
+	Clients            *Clients
+	Results            []*ClientResult
+	Exchanges          []*Exchange // all backends, by (step, backend)
+	EndReason          string
+	BootLate           bool
+	Err                string // harness trouble (never a violation)
+	Panic              string
+	SimTime            time.Duration
+	Wall               time.Duration
+	Final              FinalStats
+	Extra              map[string]any // property-specific observations made in AtEnd / hooks
+	Viol               []Violation    // violations raised by invariants during the run
+	Goroutines         [2]int         // before workload / after teardown
 	OpenOllaConnsAtEnd int
 }
 
